@@ -321,4 +321,24 @@ def Options.WF (o : Options) : Bool :=
       else o.user.isEmpty)) &&
   (o.scheme.isEmpty || !noUserInfo o || !o.host.isEmpty || !startsWith2Slash o.path)
 
+/-! ### the `List Char` view of a Rust string -/
+
+
+/-- UTF-8 encoding of one Unicode scalar value (RFC 3629), arithmetic form -/
+def encChar (c : Char) : Str :=
+  let v := c.toNat
+  if v < 0x80 then [UInt8.ofNat v]
+  else if v < 0x800 then [UInt8.ofNat (0xC0 + v / 64), UInt8.ofNat (0x80 + v % 64)]
+  else if v < 0x10000 then [UInt8.ofNat (0xE0 + v / 4096), UInt8.ofNat (0x80 + v / 64 % 64), UInt8.ofNat (0x80 + v % 64)]
+  else [UInt8.ofNat (0xF0 + v / 262144), UInt8.ofNat (0x80 + v / 4096 % 64), UInt8.ofNat (0x80 + v / 64 % 64),
+        UInt8.ofNat (0x80 + v % 64)]
+
+/-- the bytes of a Rust `String` holding the characters `cs` -/
+def utf8 (cs : List Char) : Str := cs.flatMap encChar
+
+example : encChar 'é' = String.utf8EncodeChar 'é' := by decide
+example : encChar '€' = String.utf8EncodeChar '€' := by decide
+example : encChar '𝄞' = String.utf8EncodeChar '𝄞' := by decide
+
+
 end Askar.Uri
